@@ -271,3 +271,26 @@ Proof.
   - destruct (existsb _ r); auto.
   - reflexivity.
 Qed.
+
+(* ---------------------------------------------------------------- observables depend only on the set *)
+(* two graph objects (of any two histories, under any names) that hold the same set of triples answer the existence
+   test and the full listing identically: nothing observable remembers how the set was built *)
+Theorem observers_history_independent : forall ops1 ops2 h1 h2 g1 g2,
+  graph_of (run ops1) h1 = Some g1 -> graph_of (run ops2) h2 = Some g2 ->
+  (forall k, tget k (idx g1) = tget k (idx g2)) ->
+  (forall a b, In a (listing g1) -> In b (listing g1) -> trank a = trank b -> a = b) ->
+  (forall t, snd (step (run ops1) (OExist h1 t)) = snd (step (run ops2) (OExist h2 t))) /\
+  snd (step (run ops1) (OList h1)) = snd (step (run ops2) (OList h2)).
+Proof.
+  intros ops1 ops2 h1 h2 g1 g2 Hg1 Hg2 Hsame Hinj.
+  pose proof (GInv_reachable ops1 h1 g1 Hg1) as H1. pose proof (GInv_reachable ops2 h2 g2 Hg2) as H2.
+  unfold graph_of in Hg1, Hg2. cbn. unfold with_graph. rewrite Hg1, Hg2. cbn. split.
+  - intros t. unfold exist, amem. now rewrite Hsame.
+  - f_equal. apply ranked_unique.
+    + apply sort_ranked.
+    + apply sort_ranked.
+    + now apply NoDup_listing.
+    + now apply NoDup_listing.
+    + intros t. rewrite !listing_In by assumption. now rewrite Hsame.
+    + exact Hinj.
+Qed.
